@@ -309,7 +309,7 @@ def run(ctx):
     sub = Ctx(prog, "C10", ctx.tier)
     c10.run(sub)
     for o in sub.obs:
-        if o.rule == "V2":
+        if o.rule in ("V2", "V4"):     # V4: a response is bound to this request (spliced / reflected responses of another session are refused)
             ctx.ob("T3", o.key.split("|")[1], "ss2022:" + o.key.split("|")[2], o.where, o.ok, o.detail)
     sub = Ctx(prog, "C03", ctx.tier)
     c03.run(sub)
